@@ -157,11 +157,28 @@ func c11PathName(t reflect.Type, path []int) string {
 type c11Model struct {
 	ops  []string
 	want []string
+	wire map[int]c11WireCase // op index -> the value behind a `codec <T> <encoding>` op
+}
+
+// c11WireCase: a value and its Go encoding; if the model re-encodes the same value to other
+// bytes, the wire format of a pinned type has changed (see c11WireCheck).
+type c11WireCase struct {
+	ct c11Codec
+	p  any
+	b  []byte
 }
 
 func (m *c11Model) add(op, want string) {
 	m.ops = append(m.ops, op)
 	m.want = append(m.want, want)
+}
+
+func (m *c11Model) addWire(op, want string, w c11WireCase) {
+	if m.wire == nil {
+		m.wire = map[int]c11WireCase{}
+	}
+	m.wire[len(m.ops)] = w
+	m.add(op, want)
 }
 
 // c11Known asks the model which codec names it has a schema for.
@@ -203,7 +220,9 @@ func runC11(c *fw.Ctx) {
 	for _, ct := range ts {
 		c11Type(c, g, ct, perType, known[ct.lean], model)
 		c11Blobs(c, g, ct, consts, known[ct.lean], model)
+		c11Edges(c, g, ct, known[ct.lean], model)
 	}
+	c11Golden(c)
 	c11Chain(c, g, known, model)
 	c11PolicyDirected(c, g, known, model)
 	res.CountN("types", len(ts))
@@ -231,6 +250,9 @@ func c11Compare(c *fw.Ctx, m *c11Model) {
 		c.Res.ModelOps++
 		if out[i] != m.want[i] {
 			c.Res.Disagree(fw.Disagreement{Op: m.ops[i], Go: m.want[i], Model: out[i]})
+			if w, ok := m.wire[i]; ok {
+				c11WireCheck(c, w, out[i])
+			}
 		}
 	}
 }
@@ -316,7 +338,7 @@ func c11CheckValue(c *fw.Ctx, g *c11Gen, ct c11Codec, p any, modelled bool, mode
 			seen[string(b)] = p
 		}
 		if modelled {
-			model.add("codec "+ct.lean+" "+c11Hex(b), "ok "+c11Hex(b)+" 0")
+			model.addWire("codec "+ct.lean+" "+c11Hex(b), "ok "+c11Hex(b)+" 0", c11WireCase{ct, p, b})
 		}
 		// truncation: all proper prefixes of short encodings, a sample of long ones
 		var cuts []int
